@@ -53,11 +53,11 @@ type c01cSub struct {
 }
 
 type c01cStage struct {
-	T     string     `json:"t"` // lambda | pass | par | br
-	Body  *c01cBody  `json:"body,omitempty"`
-	Subs  []c01cSub  `json:"subs,omitempty"`
-	Table []string   `json:"table,omitempty"`
-	Fail  *int       `json:"fail,omitempty"`
+	T     string    `json:"t"` // lambda | pass | par | br
+	Body  *c01cBody `json:"body,omitempty"`
+	Subs  []c01cSub `json:"subs,omitempty"`
+	Table []string  `json:"table,omitempty"`
+	Fail  *int      `json:"fail,omitempty"`
 }
 
 type c01cChain struct {
